@@ -1,8 +1,11 @@
 from common import T_COMMON
 
 CFG = dict(
-    modules=["PolyVerif.Props.C02", "PolyVerif.Props.C02Delaunay", "PolyVerif.Props.C02More"],
-    theorems=["prim_wf", "uvSphere_wf", "uvSphereUnwelded_wf", "hemisphere_wf", "circle_wf", "cone_wf", "cylinder_wf", "cylinder_nocaps_wf",
+    gen=[dict(tool="facts", mode="c02.guards", out="MeshGuards.lean")],
+    modules=["PolyVerif.Props.C02", "PolyVerif.Props.C02Delaunay", "PolyVerif.Props.C02More", "PolyVerif.Props.C02Guards"],
+    theorems=[# Props/C02Guards.lean (engine F: every panic of modeling/mesh.go and topology.go with its conditions, regenerated)
+              "PolyVerif.C02.mesh_guards_from_source", "PolyVerif.C02.mesh_guards_count",
+              "prim_wf", "uvSphere_wf", "uvSphereUnwelded_wf", "hemisphere_wf", "circle_wf", "cone_wf", "cylinder_wf", "cylinder_nocaps_wf",
               "extrusions_total", "extrudeShape_wf", "screw_wf", "extrudeLine_wf", "extrudePolygon_wf", "marchBlock_wf", "march_wf", "quad_wf", "cube_wf", "cubeUnwelded_wf",
               "unweld_wf", "removeUnreferenced_wf", "toPointCloud_wf", "flip_wf", "setIndices_wf",
               "append_wf", "setAttr_wf", "setAttr_delete_wf", "modifyAttr_wf", "mapAttr_wf", "setNormals_wf", "filterAttr_wf",
